@@ -225,6 +225,7 @@ func runC19(c *Ctx) {
 	}
 	c.Check(okLine, "R5", "attribute-line:present", p.Pos(tc.Pos()), "line format found", "cannot find the attribute line format")
 	c19MacroScope(c)
+	c19UntrackSplitsLikeGit(c)
 	c19ArgPrefix(c)
 }
 
@@ -659,5 +660,46 @@ func c19ArgPrefix(c *Ctx) {
 			continue
 		}
 		c.Check(len(CallsInDeep(f, "tools.TrimCurrentPrefix")) > 0, "R7", "arg-normalisation:used-by:"+name, p.Pos(f.Pos()), "arguments are normalised with TrimCurrentPrefix", name+" no longer normalises its argument with TrimCurrentPrefix")
+	}
+}
+
+// c19UntrackSplitsLikeGit (R3, reading existing lines): Git separates the pattern of an attribute line from its
+// attributes by any run of blanks or tabs, and ignores leading blanks. untrack takes the pattern of a line with the
+// same notion of white space (strings.Fields) — cutting at the first space only misses tab-separated and indented
+// lines, which then silently survive an untrack.
+func c19UntrackSplitsLikeGit(c *Ctx) {
+	p := c.P
+	fn := p.Fn("commands", "untrackCommand")
+	if fn == nil {
+		c.Missing("R3", "commands.untrackCommand", "not found")
+		return
+	}
+	rp := CallsInDeep(fn, "commands.removePath")
+	if len(rp) == 0 {
+		c.Missing("R3", "removePath call in untrackCommand", "not found")
+		return
+	}
+	for i, ci := range rp {
+		arg := ci.Common().Args[0]
+		how := ""
+		good := false
+		for _, l := range p.LeavesNoFields(arg, func(v ssa.Value) FlowAct {
+			if cc, _, ok := CallResult(v); ok && strings.HasPrefix(CalleeName(cc.Common()), "strings.") {
+				return Stop
+			}
+			return Descend
+		}) {
+			if cc, _, ok := CallResult(l); ok {
+				how = CalleeName(cc.Common())
+				if how == "strings.Fields" {
+					good = true
+				} else if strings.HasPrefix(how, "strings.Split") || how == "strings.Cut" || how == "strings.Index" {
+					good = false
+					break
+				}
+			}
+		}
+		c.Check(good, "R3", fmt.Sprintf("untrack:pattern-of-a-line-is-its-first-field#%d", i), p.InstrPos(ci), "the pattern of an existing line is its first white-space separated field",
+			"untrack takes the pattern of an existing .gitattributes line with "+how+" instead of splitting on any white space: a tab-separated or indented line is never matched, the line stays and Git keeps applying the filter")
 	}
 }
